@@ -33,6 +33,16 @@ type Scenario struct {
 	EmptyIDAt     int   `json:"emptyidat,omitempty"` // manual IDs: the message with this creation index carries the (valid) empty ID; 0 = none, else index+1
 	WarmSubs      int   `json:"warmsubs,omitempty"`  // the first WarmSubs subscribers are started and run to quiescence (registered) before the schedule begins
 	Picks         []int `json:"picks"`
+	// deviation mode (bounded enumeration): the scheduler takes option 0 at every step except
+	// at the listed steps
+	DevMode bool  `json:"devmode,omitempty"`
+	Dev     []Dev `json:"dev,omitempty"`
+}
+
+// Dev is one deviation from the default schedule: at step S take option C (instead of 0).
+type Dev struct {
+	S int `json:"s"`
+	C int `json:"c"`
 }
 
 type SubSpec struct {
@@ -173,6 +183,74 @@ func genScenario(p profile) func(*rapid.T) Scenario {
 		for i := 0; i < np2; i++ {
 			sc.Picks = append(sc.Picks, stats.Bits(t, 6, "pick"))
 		}
+		return sc
+	}
+}
+
+// genSmallScenario draws a small scenario for the deviation-bounded enumeration: few actors,
+// so that ALL schedules with at most K deviations from the default one can be executed.
+func genSmallScenario(p profile) func(*rapid.T) Scenario {
+	return func(t *rapid.T) Scenario {
+		sc := Scenario{PutErrAt: -1, PutPanicAt: -1, ReplayPanicAt: -1, DevMode: true}
+		if stats.Pct(t, "realrep") < p.realRep {
+			sc.Replayer = stats.From(t, []string{"finite", "valid"}, "repkind")
+			sc.Cap = 2 + stats.Pick(t, 2, "cap")
+			sc.Auto = rapid.Bool().Draw(t, "auto")
+		} else {
+			sc.Replayer = "noop"
+		}
+		ns := 1 + stats.Pick(t, 2, "nsubs")
+		if p.minSubs > ns {
+			ns = p.minSubs
+		}
+		for i := 0; i < ns; i++ {
+			s := SubSpec{Topics: []string{stats.From(t, []string{"", "a"}, "topic")}}
+			if stats.Pct(t, "hasfault") < p.faults {
+				s.FailKind = stats.From(t, []string{"send", "flush"}, "failkind")
+				s.FailAt = stats.Pick(t, 2, "failat")
+				s.FailCancel = stats.Pct(t, "failcancel") < p.failCancel
+			}
+			if stats.Pct(t, "replayerr") < p.replayErr {
+				s.ReplayErr = true
+			}
+			if sc.Replayer != "noop" && stats.Pct(t, "resume") < p.resume {
+				s.IDKind = stats.From(t, []string{"put", "newest", "never"}, "idkind")
+				s.IDK = stats.Pick(t, 4, "idk")
+			}
+			sc.Subs = append(sc.Subs, s)
+		}
+		np := 1 + stats.Pick(t, 2, "npubs")
+		for i := 0; i < np; i++ {
+			nm := 1 + stats.Pick(t, 2, "nmsgs")
+			var ps PubSpec
+			for k := 0; k < nm; k++ {
+				ps.Msgs = append(ps.Msgs, []string{stats.From(t, []string{"", "a"}, "mtopic"), "a"}[:1+stats.Pick(t, 2, "ntop")])
+			}
+			sc.Pubs = append(sc.Pubs, ps)
+		}
+		if stats.Pct(t, "cancel") < 60 {
+			sc.Cancels = []int{stats.Pick(t, ns, "cancelwho")}
+		}
+		if n := stats.From(t, p.shutdowns, "nshutdowns"); n > 0 {
+			sc.Shutdowns = []ShutSpec{{Ctx: stats.From(t, []string{"live", "live", "expired"}, "shutctx")}}
+			if n > 1 {
+				sc.Shutdowns = append(sc.Shutdowns, ShutSpec{Ctx: "live"})
+			}
+		}
+		if stats.Pct(t, "repfault") < p.repFaults {
+			switch stats.Pick(t, 3, "repfaultkind") {
+			case 0:
+				sc.PutErrAt = stats.Pick(t, 2, "puterrat")
+			case 1:
+				sc.PutPanicAt = stats.Pick(t, 2, "putpanicat")
+			default:
+				sc.ReplayPanicAt = stats.Pick(t, 2, "replaypanicat")
+			}
+		}
+		if sc.Replayer != "noop" {
+			sc.Prefill = stats.Pick(t, 4, "prefill")
+		}
+		sc.WarmSubs = stats.Pick(t, ns+1, "warmsubs")
 		return sc
 	}
 }
